@@ -72,7 +72,7 @@ pub proof fn bn_lemma_convert_or_@T@(x: @T@, d: @T@, s: @T@, w: nat)
 """
 
 BU_TO_U = r"""
-//! fn impl(TryFrom<$BUint<N>>for@T@)::try_from [ext_trait=TryFromU_@T@]
+//! fn impl(TryFrom<$BUint<N>>for@T@)::try_from [ext_trait=TryFromU_@T@ lift]
 pub fn TryFromU_@T@__try_from<const N: usize>(u: $BUint<N>) -> /*@{*/(r: /*}@*/Result<@T@, TryFromIntError>/*@{*/)/*}@*/
     /*@{*/ requires bn_wf(N)
     ensures r.is_ok() == (u@ <= @T@::MAX), (r matches Ok(v) ==> v as int == u@) /*}@*/
@@ -186,7 +186,7 @@ pub proof fn bn_lemma_convert_narrow_@T@(x: $D)
 """
 
 BU_TO_S = r"""
-//! fn impl(TryFrom<$BUint<N>>for@T@)::try_from [ext_trait=TryFromU_@T@]
+//! fn impl(TryFrom<$BUint<N>>for@T@)::try_from [ext_trait=TryFromU_@T@ lift]
 pub fn TryFromU_@T@__try_from<const N: usize>(u: $BUint<N>) -> /*@{*/(r: /*}@*/Result<@T@, TryFromIntError>/*@{*/)/*}@*/
     /*@{*/ requires bn_wf(N)
     ensures r.is_ok() == (u@ <= @T@::MAX), (r matches Ok(v) ==> v as int == u@) /*}@*/
@@ -279,7 +279,7 @@ pub fn TryFromU_@T@__try_from<const N: usize>(u: $BUint<N>) -> /*@{*/(r: /*}@*/R
 """
 
 BI_TO_U = r"""
-//! fn impl(TryFrom<$BInt<N>>for@T@)::try_from [ext_trait=TryFromI_@T@ extcall=<@T@>::try_from:TryFromU_@T@__try_from]
+//! fn impl(TryFrom<$BInt<N>>for@T@)::try_from [ext_trait=TryFromI_@T@ lift extcall=<@T@>::try_from:TryFromU_@T@__try_from]
 pub fn TryFromI_@T@__try_from<const N: usize>(int__: $BInt<N>) -> /*@{*/(r: /*}@*/Result<@T@, TryFromIntError>/*@{*/)/*}@*/
     /*@{*/ requires bn_wf(N)
     ensures r.is_ok() == (0 <= int__@ <= @T@::MAX), (r matches Ok(v) ==> v as int == int__@) /*}@*/
@@ -446,7 +446,7 @@ pub proof fn bn_lemma_convert_pad_some(s: Seq<$D>, j: int, n: nat, neg: bool)
 """
 
 BI_TO_S = r"""
-//! fn impl(TryFrom<$BInt<N>>for@T@)::try_from [ext_trait=TryFromI_@T@]
+//! fn impl(TryFrom<$BInt<N>>for@T@)::try_from [ext_trait=TryFromI_@T@ lift]
 pub fn TryFromI_@T@__try_from<const N: usize>(int__: $BInt<N>) -> /*@{*/(r: /*}@*/Result<@T@, TryFromIntError>/*@{*/)/*}@*/
     /*@{*/ requires bn_wf(N)
     ensures r.is_ok() == (@T@::MIN as int <= int__@ <= @T@::MAX as int), (r matches Ok(v) ==> v as int == int__@) /*}@*/
